@@ -15,9 +15,12 @@ schedule within the pre-emption bound is one path of the exploration and a
 failing schedule is part of the counterexample model (replayed on the real
 tree with the same selectors).
 
-Pre-emption bound: switching away from a thread that could continue costs one
-pre-emption; with the budget used up the running thread continues until it
-blocks or ends (switches at blocking points are free).
+Pre-emption bound (bound='preempt'): switching away from a thread that could
+continue costs one pre-emption; with the budget used up the running thread
+continues until it blocks or ends (switches at blocking points are free
+choices).  Delay bound (bound='delay', for 4-5 threads): the default scheduler is
+deterministic (continue; on blocking the next enabled thread in round-robin
+order) and every skipped thread costs one delay (Emmi/Qadeer/Rakamaric 2011).
 """
 import threading as _th
 import time as _time
@@ -39,7 +42,8 @@ class _LT:
         self.baton = _th.Semaphore(0)
         self.state = 'ready'      # ready | blocked | done
         self.can_run = None
-        self.timeout_ok = False   # blocked with a time-out: may be woken by "time-out" when nothing else can run
+        self.timeout_ok = False   # blocked with a time-out: woken by the time-out when nothing else can run
+        self.deadline = None      # virtual instant of that time-out
         self.timed_out = False
         self.exc = None
         self.result = None
@@ -52,9 +56,10 @@ class _LT:
 class Sched:
     current = None   # the active scheduler (one per process at a time)
 
-    def __init__(self, env, name='sch', max_preempt=2, max_steps=4000, stall_s=20.0):
+    def __init__(self, env, name='sch', max_preempt=2, max_steps=4000, stall_s=20.0, bound='preempt'):
         self.env = env
         self.name = name
+        self.bound = bound        # 'preempt': pre-emption bounding; 'delay': delay bounding (see run)
         self.max_preempt = max_preempt
         self.max_steps = max_steps
         self.stall_s = stall_s
@@ -67,12 +72,23 @@ class Sched:
         self.trace = []           # (thread name, label) of every synchronisation point passed
         self.deadlock = None
         self.running = False
+        self.now = 0.0            # virtual time: advances only when every thread is blocked, to the earliest deadline
 
     # ---- construction
     def spawn(self, name, fn, *args):
         t = _LT(name, fn, args)
         self.threads.append(t)
+        if self.running:
+            self._start(t)
         return t
+
+    def _start(self, t):
+        t.thread = _th.Thread(target=self._body, args=(t,), name='lt-' + t.name, daemon=True)
+        t.thread.start()
+        self.by_ident[t.thread.ident] = t
+
+    def time(self):
+        return self.now
 
     def _body(self, t):
         t.baton.acquire()
@@ -103,9 +119,12 @@ class Sched:
         if t.killed:
             raise SchedKill()
 
-    def block(self, can_run, label='', timeout_ok=False):
+    def block(self, can_run, label='', timeout_ok=False, timeout=None):
         """the calling logical thread can not continue before can_run() is true.
-        returns False when woken by a time-out instead"""
+        returns False when woken by a time-out instead (time-outs expire in virtual time, only
+        when no thread can run)"""
+        if timeout is not None:
+            timeout_ok = True
         t = self.me()
         if t is None:
             raise Deadlock('%s: the controller thread would block (%s)' % (self.name, label))
@@ -114,6 +133,7 @@ class Sched:
         t.state = 'blocked'
         t.can_run = can_run
         t.timeout_ok = timeout_ok
+        t.deadline = self.now + (timeout if timeout is not None else 1.0)
         t.timed_out = False
         self.trace.append((t.name, 'block:' + label))
         self.ctrl.release()
@@ -146,9 +166,7 @@ class Sched:
         Sched.current = self
         self.running = True
         for t in self.threads:
-            t.thread = _th.Thread(target=self._body, args=(t,), name='lt-' + t.name, daemon=True)
-            t.thread.start()
-            self.by_ident[t.thread.ident] = t
+            self._start(t)
         try:
             while True:
                 if all(t.state == 'done' for t in self.threads):
@@ -160,7 +178,8 @@ class Sched:
                     if not sleepers:
                         self.deadlock = [(t.name, t.state) for t in self.threads]
                         break
-                    t = sleepers[0] if len(sleepers) == 1 else sleepers[self.env.choice('%s.to%d' % (self.name, self.step), len(sleepers))]
+                    t = min(sleepers, key=lambda x: x.deadline)     # ties: creation order
+                    self.now = max(self.now, t.deadline)
                     t.timed_out = True
                     t.can_run = lambda: True
                     enabled = [t]
@@ -168,7 +187,21 @@ class Sched:
                 if self.step > self.max_steps:
                     raise Deadlock('%s: more than %d scheduling steps' % (self.name, self.max_steps))
                 last = self.last
-                if len(enabled) == 1:
+                if self.bound == 'delay':
+                    # delay bounding: a deterministic scheduler (the running thread continues; when it blocks, the next
+                    # enabled thread in round-robin order) that may be told <= max_preempt times in total to skip a thread
+                    order = self.threads
+                    i0 = order.index(last) if last in order else 0
+                    rr = order[i0:] + order[:i0]
+                    if last not in enabled and last in order:
+                        rr = rr[1:] + rr[:1]
+                    enabled = [t for t in rr if t in enabled]
+                    left = self.max_preempt - self.preempts
+                    n = min(len(enabled), left + 1)
+                    k = 0 if n <= 1 else self.env.choice('%s.s%d' % (self.name, self.step), n)
+                    self.preempts += k
+                    nxt = enabled[k]
+                elif len(enabled) == 1:
                     nxt = enabled[0]
                 elif last in enabled and self.preempts >= self.max_preempt:
                     nxt = last
@@ -234,7 +267,7 @@ class CoRLock:
             s = Sched.current
             if s is None or s.me() is None:
                 raise Deadlock('lock held by %r wanted outside the scheduler' % (getattr(self.owner, 'name', self.owner),))
-            if not s.block(lambda: self.owner is None, 'lock', timeout_ok=timeout is not None and timeout >= 0):
+            if not s.block(lambda: self.owner is None, 'lock', timeout=timeout if timeout is not None and timeout >= 0 else None):
                 return False
         self.owner = me
         self.count = 1
@@ -289,8 +322,95 @@ class CoEvent:
         s = Sched.current
         if s is None or s.me() is None:
             return self.flag    # outside the scheduler: never blocks
-        s.block(lambda: self.flag, 'event', timeout_ok=timeout is not None)
+        s.block(lambda: self.flag, 'event', timeout=timeout)
         return self.flag
+
+
+class CoQueue:
+    """queue.Queue: put and get are synchronisation points, get blocks while the queue is empty"""
+
+    def __init__(self, maxsize=0):
+        self.maxsize = maxsize
+        self.items = []
+
+    def qsize(self):
+        return len(self.items)
+
+    def empty(self):
+        return not self.items
+
+    def full(self):
+        return 0 < self.maxsize <= len(self.items)
+
+    def put(self, item, block=True, timeout=None):
+        import queue
+        yield_point('queue-put')
+        while self.full():
+            s = Sched.current
+            if not block or s is None or s.me() is None:
+                raise queue.Full()
+            if not s.block(lambda: not self.full(), 'queue-full', timeout=timeout):
+                raise queue.Full()
+        self.items.append(item)
+
+    def get(self, block=True, timeout=None):
+        import queue
+        yield_point('queue-get')
+        while not self.items:
+            s = Sched.current
+            if not block or s is None or s.me() is None:
+                raise queue.Empty()
+            if not s.block(lambda: bool(self.items), 'queue-empty', timeout=timeout):
+                raise queue.Empty()
+        return self.items.pop(0)
+
+    def put_nowait(self, item):
+        return self.put(item, False)
+
+    def get_nowait(self):
+        return self.get(False)
+
+
+class CoQueueModule:
+    """stands in for the 'queue' module"""
+    Queue = CoQueue
+
+    def __getattr__(self, name):
+        import queue
+        return getattr(queue, name)
+
+
+class ThreadHandle:
+    """what mkthread returns: the logical thread as a joinable object"""
+
+    def __init__(self, lt):
+        self.lt = lt
+
+    def join(self, timeout=None):
+        s = Sched.current
+        if self.lt.state == 'done':
+            return
+        if s is None or s.me() is None:
+            raise Deadlock('join of %s outside the scheduler' % self.lt.name)
+        if s.me() is self.lt:
+            raise RuntimeError('cannot join current thread')
+        s.block(lambda: self.lt.state == 'done', 'join', timeout=timeout)
+
+    def is_alive(self):
+        return self.lt.state != 'done'
+
+    def __eq__(self, other):
+        return (isinstance(other, ThreadHandle) and other.lt is self.lt) or other is self.lt
+
+    def __hash__(self):
+        return id(self.lt)
+
+
+def current_thread():
+    s = Sched.current
+    if s is not None and s.me() is not None:
+        return ThreadHandle(s.me())
+    return _th.current_thread()
 
 
 class CoThreading:
